@@ -1120,7 +1120,9 @@ func runC16(e *Env) error {
 		"every truncation (encodings ≤ 400 bytes; field boundaries ±1 otherwise) and one-byte mutations (every position for ≤ 400 bytes), plus all 256 second bytes after 0x01 (GobFacts) and legacy gob streams; " +
 		"(c) handwritten and generated sites (text, print, if, for, set, include, macros/import/from/_self, extends/blocks, verbatim, whitespace control, 80 KiB) compiled → serialised → deserialised → " +
 		"loaded on fresh engines via RegisterCompiledTemplate, LoadFromCompiledData, CompiledLoader (temp dir; cache on/off), LoadCompiled and LoadAll, rendered on random contexts against the source engine, recompiled on every route; " +
-		"source edges: 42 byte sequences (byte order marks, line ends, white space, NUL, DOS EOF, invalid/denormalised UTF-8, lone tag characters) at head, tail, both ends, middle, second line and alone around text/print/tag bodies through all routes; raw/broken sources and crafted AST bytes. " +
+		"source edges: 42 byte sequences (byte order marks, line ends, white space, NUL, DOS EOF, invalid/denormalised UTF-8, lone tag characters) at head, tail, both ends, middle, second line and alone around text/print/tag bodies through all routes; raw/broken sources and crafted AST bytes; " +
+		"compiled-directory histories: one compiled file written again and again (every ordered pair of 7 releases stamped by older/newer/equal/future source mtime, ArrayLoader, RegisterString; removed and rewritten) by the observing loader, another instance, a throw-away instance or a file copy, " +
+		"asked before and after every write by 2-3 loader instances and engines (cached, auto-reload, development mode, cache off, before a fallback loader) against the source of what is on disk. " +
 		"non-trivial = some field non-empty (a,b) / source output non-empty (c); distinct by encoding resp. (template, context)"
 	// what CompileTemplate stores as AST in this process (a gob type descriptor; see Codec.astExample)
 	astConst := c16AstOfThisProcess()
@@ -1264,6 +1266,9 @@ func runC16(e *Env) error {
 		}
 	}
 	c16SourceEdges(e, astConst)
+	lap("end to end: hand sites, source edges")
+	c16DirHistories(e)
+	lap("compiled-directory histories")
 	ns := e.N(250, 4000)
 	for i := 0; i < ns && !r.Full(); i++ {
 		s := c16GenSite(e.Rng)
